@@ -242,7 +242,7 @@ def oracle(cases, impl, order):
                 if out != want:
                     stored, exp, ver = ph.header(t, k)
                     sig = None
-                    if policy == "compact" and stored and t != "k" and stale_same_version(ph, t, k):
+                    if policy == "compact" and stored and t != "k" and ver != 0 and stale_same_version(ph, t, k):
                         sig = SIG_VERSION
                     fail("read", cid, "a read does not show exactly the stored live content "
                          "(expired must be absent, unexpired fully visible with its remaining TTL): got [%s] want [%s]" % (out, want),
@@ -265,6 +265,15 @@ def oracle(cases, impl, order):
                     check_filter(bg, ph, now0, fail, bump)
                 bg["after"] = {}
                 bg["before"] = {kk: vv for kk, vv in obs_run.items()}
+            elif kind == "F":
+                # the compaction filter on synthetic headers: it may allow dropping a KV value / a collection meta only
+                # when it has been expired for LONGER than the lazy threshold (an unexpired key is never removed)
+                csec, deltas = int(c[1]), [int(x) for x in c[2].split(",")]
+                want = "".join(("11" if (d + LAZY < 0 and csec + d > 1500000000) else "00") for d in deltas)
+                bump("F probes", len(deltas))
+                if out != want:
+                    fail("filter", cid, "compaction filter decisions around the lazy threshold (ExpireAt - clock = %s): got %s want %s"
+                         % (c[2], out, want), deltas=c[2])
             elif kind == "A":
                 tn, t, k = int(c[1]), c[2], c[3]
                 stored, exp, ver = ph.header(t, k)
@@ -334,8 +343,8 @@ def check_write(w, after, policy, now0, fail, bump):
             if wc is not None:
                 got = after.content(t, k) if st2 else []
                 if got != wc:
-                    sg = SIG_VERSION if (t != "k" and st2 and stale_same_version(after, t, k)) or \
-                        (t != "k" and (t, k, ts) in before.el) else None
+                    # the open finding is specifically: the new generation number (= ts) is that of elements stored before
+                    sg = SIG_VERSION if (t != "k" and ts != 0 and (t, k, ts) in before.el) else None
                     fail("dead", cid, "a write on an expired key must start from empty "
                          "(no content of the expired predecessor): content after %s want %s" % (got, wc), sg,
                          cmd=name, args=w["hexargs"], ts=ts - now0 * 10**9, expire_at=exp - now0)
@@ -354,7 +363,7 @@ def check_write(w, after, policy, now0, fail, bump):
             if wc is not None and t != "k" and st2 and reply != "-err":
                 got = after.content(t, k)
                 if got != wc:
-                    sg = SIG_VERSION if (t, k, ts) in before.el or stale_same_version(after, t, k) else None
+                    sg = SIG_VERSION if (ts != 0 and (t, k, ts) in before.el) else None
                     fail("resurrect", cid, "a re-created collection shows members it was not given: %s want %s" % (got, wc), sg,
                          cmd=name, args=w["hexargs"], ts=ts - now0 * 10**9)
             continue
@@ -593,7 +602,7 @@ def run(ctx):
         cur = None
         for cid in order:
             c = cases[cid]
-            if c[0] in ("W", "C", "L", "A", "K"):
+            if c[0] in ("W", "C", "L", "A", "K", "F"):
                 distinct.add(vlib.case_hash(sub + "\t".join(c[2:] if c[0] == "W" else c)))
         ids = [i for i in order if cases[i][0] == "W"]
         for cid in ids[:2] + ids[-1:]:
@@ -639,8 +648,39 @@ def run(ctx):
         uniq.append(f)
     known = {k.get("signature") for k in vlib.load_known_findings() if k.get("status") == "open" and k.get("property") == "C10"}
     uniq = [f if (f.get("signature") in known or ctx.replay) else shrink(ctx, f) for f in uniq[:5]] + uniq[5:]
-    vlib.standard_verdict(ctx, proofs_ok, all_mism, uniq, search_fn=search,
-                          corr_name="Expire/Model.v vs rockredis (value header, generations, compaction filter, local deletion) through node.StateMachine")
+    # failures that are open known findings are announced here; they must not mask a broken correspondence or
+    # proof (vlib.standard_verdict stops at the first non-empty list of oracle failures)
+    for f in [f for f in uniq if f.get("signature") in known]:
+        ctx.report_violation(f["name"], dict(case=f.get("case"), kind="failing-input"), signature=f["signature"], what=f.get("what", ""))
+    uniq = [f for f in uniq if f.get("signature") not in known]
+    corr = "Expire/Model.v vs rockredis (value header, generations, compaction filter, local deletion) through node.StateMachine"
+    if uniq:
+        vlib.standard_verdict(ctx, proofs_ok, all_mism, uniq, corr_name=corr)
+    elif not proofs_ok or all_mism:
+        # only a proof or the correspondence broke: search for a failing input with the direct oracle alone;
+        # open known findings met on the way neither count as the failing input nor end the search
+        found = [f for f in search() if f.get("signature") not in known]
+        found.sort(key=lambda f: len(f["case"].get("abstract_tsv", [])))
+        seen2, picked = set(), []
+        for f in found:
+            key = f["name"].split("-")[0] + ":" + str(f["case"].get("cmd"))
+            if key not in seen2:
+                seen2.add(key)
+                picked.append(f)
+        for f in picked[:5]:
+            f = shrink(ctx, f)
+            ctx.report_violation(f["name"], dict(case=f.get("case"), kind="failing-input (found by search after a broken proof/correspondence)"),
+                                 signature=f.get("signature"), what=f.get("what", ""))
+        if not picked:
+            broken = {}
+            if not proofs_ok:
+                pr = ctx.proof or {}
+                broken["broken_proof"] = dict(file=pr.get("file"), error=(pr.get("error") or pr.get("make_error") or "")[-3000:], gate=pr.get("gate"))
+            if all_mism:
+                broken["broken_correspondence"] = dict(name=corr, count=len(all_mism),
+                                                       first=[dict(id=m[0], impl=m[1], model=m[2]) for m in all_mism[:10]])
+            ctx.report_violation("unproved", dict(kind="no-failing-input-found", **broken),
+                                 what="property no longer shown to hold: " + ", ".join(broken.keys()), no_failing_input=True)
     ctx.finish(dict(
         traces_validated_against_impl=total,
         evaluations=total,
